@@ -103,6 +103,15 @@ def install_xarray_seams(ctl: FaultController):
                         raise make_oserror('EIO', 'to_netcdf (partial file left behind)')
                     if f['kind'] == 'crash_after':
                         ctl.ctx.crash()
+                    if f['kind'] == 'sigterm':
+                        # stopped by SIGTERM half way through this file
+                        try:
+                            size = os.path.getsize(path)
+                            with open(path, 'r+b') as fh:
+                                fh.truncate(max(0, size // 2))
+                        except OSError:
+                            pass
+                        ctl.ctx.terminate()
                 return result
             finally:
                 depth['n'] -= 1
@@ -134,6 +143,20 @@ def install_xarray_seams(ctl: FaultController):
         return orig_open(*args, **kwargs)
 
     xarray.open_dataset = open_dataset
+
+    # reads of a lazily opened netCDF variable (every emsarray input that is not in memory yet)
+    import xarray.backends.netCDF4_ as nc4_backend
+    orig_getitem = nc4_backend.NetCDF4ArrayWrapper._getitem
+
+    def _getitem(self, key):
+        f = ctl.cross('read')
+        if f is not None:
+            if f['kind'] == 'crash':
+                ctl.ctx.crash()
+            raise make_oserror(f['kind'], f'read of variable {self.variable_name!r}')
+        return orig_getitem(self, key)
+
+    nc4_backend.NetCDF4ArrayWrapper._getitem = _getitem
     return {'to_netcdf': orig_ds, 'open_dataset': orig_open, 'open_mfdataset': orig_mf}
 
 
@@ -241,9 +264,23 @@ class FaultyFile:
         if f is not None:
             if f['kind'] == 'crash':
                 self._ctl.ctx.crash()
+            # the flush inside close() is what fails: whatever was still buffered never reaches the file
+            on_disk, path = None, None
+            try:
+                on_disk = os.fstat(self._fh.fileno()).st_size
+                path = self._fh.name
+            except (OSError, ValueError, AttributeError):
+                pass
             try:
                 self._fh.close()
             finally:
+                if on_disk is not None and isinstance(path, (str, bytes, os.PathLike)):
+                    try:
+                        if os.path.getsize(path) > on_disk:
+                            os.truncate(path, on_disk)
+                            self._ctl.ctx.emit('probe', name='buffered_tail_lost_at_close')
+                    except OSError:
+                        pass
                 raise make_oserror(f['kind'], self._label + '.close')
         return self._fh.close()
 
